@@ -369,9 +369,26 @@ pub fn run_mode(dict: &Dict, text: &str, mode: Mode) -> Option<Vec<Tok>> {
 
 pub fn run_split(list: &MorphemeList<Dict>, i: usize, mode: Mode) -> Option<(bool, Vec<Tok>)> {
     catch(|| {
-        let mut out = list.empty_clone();
-        let b = list.get(i).split_into(mode, &mut out).expect("split_into error");
-        (b, observe(&out))
+        if (i + if mode == Mode::A { 0 } else { 1 }) % 2 == 0 {
+            // output list sharing the input of the source list
+            let mut out = list.empty_clone();
+            let b = list.get(i).split_into(mode, &mut out).expect("split_into error");
+            (b, observe(&out))
+        } else {
+            // unrelated output list (split_into must make it point at the source's input); splitting twice into it
+            // must append the same sub-tokens again, since the list is not cleared
+            let mut out = MorphemeList::empty(list.dict().clone());
+            let b = list.get(i).split_into(mode, &mut out).expect("split_into error");
+            let once = observe(&out);
+            let b2 = list.get(i).split_into(mode, &mut out).expect("split_into error");
+            let twice = observe(&out);
+            let mut exp = once.clone();
+            exp.extend(once.iter().cloned());
+            if b2 != b || twice != exp {
+                panic!("second split_into into the same list: {} {:?}, first: {} {:?}", b2, twice, b, once);
+            }
+            (b, once)
+        }
     })
     .ok()
 }
